@@ -243,6 +243,42 @@ def noFuncL (H : Hier) : List Ty → Bool
 end
 
 mutual
+/-- no `Type[...]` anywhere in the term -/
+def Ty.noTypeType : Ty → Bool
+  | .never => true
+  | .none => true
+  | .inst _ => true
+  | .gen _ a => a.noTypeType
+  | .union is => noTypeTypeL is
+  | .tuple is => noTypeTypeL is
+  | .callable as r => noTypeTypeL as && r.noTypeType
+  | .lit _ _ => true
+  | .typeType _ => false
+def noTypeTypeL : List Ty → Bool
+  | [] => true
+  | t :: ts => t.noTypeType && noTypeTypeL ts
+end
+
+mutual
+/-- the restriction under which the join/meet bound laws are proved: the argument of every invariant or
+    contravariant generic instance is free of `Type[...]` (so that for such arguments `is_subtype` and
+    `is_proper_subtype` coincide; see `not_meet_lower` for what happens otherwise) -/
+def Ty.latOk (H : Hier) : Ty → Bool
+  | .never => true
+  | .none => true
+  | .inst _ => true
+  | .gen c a => a.latOk H && (H.variance c == .co || a.noTypeType)
+  | .union is => latOkL H is
+  | .tuple is => latOkL H is
+  | .callable as r => latOkL H as && r.latOk H
+  | .lit _ _ => true
+  | .typeType i => i.latOk H
+def latOkL (H : Hier) : List Ty → Bool
+  | [] => true
+  | t :: ts => t.latOk H && latOkL H ts
+end
+
+mutual
 /-- well-formed terms: classes from the table used with the right arity; unions flattened
     (`UnionType.__init__` flattens) and non-empty (`Union[()]` has no subtype at all in the code, not even
     Never); `Type[...]` normalised (`TypeType.make_normalized`) -/
